@@ -19,6 +19,7 @@ pub mod c13;
 pub mod c14;
 pub mod c15;
 pub mod c16;
+pub mod c17;
 pub mod c18;
 pub mod c19;
 
@@ -40,6 +41,7 @@ pub fn run(id: &str, tier: Tier) -> i32 {
         "C14" => c14::run(tier),
         "C15" => c15::run(tier),
         "C16" => c16::run(tier),
+        "C17" => c17::run(tier),
         "C18" => c18::run(tier),
         "C19" => c19::run(tier),
         _ => {
@@ -69,6 +71,7 @@ pub fn replay(id: &str, j: &J) -> i32 {
         "C14" => c14::replay(&case),
         "C15" => c15::replay(&case),
         "C16" => c16::replay(&case),
+        "C17" => c17::replay(&case),
         "C18" => c18::replay(&case),
         "C19" => c19::replay(&case),
         _ => None,
